@@ -117,8 +117,10 @@ func Median(s consensus.State) time.Time {
 	if n%2 == 1 {
 		return ts[n/2]
 	}
+	// the true midpoint (time.Duration would saturate beyond 292 years); header timestamps are whole seconds
 	l, r := ts[n/2-1], ts[n/2]
-	return l.Add(r.Sub(l) / 2)
+	d := r.Unix() - l.Unix()
+	return time.Unix(l.Unix()+d/2, (d%2)*500000000+int64(l.Nanosecond())).In(l.Location())
 }
 
 // NewChain creates the wallet, the genesis block for net and applies it.
